@@ -33,7 +33,15 @@ mkdir -p $H && cp -r /verif/harness/Cargo.toml /verif/harness/.cargo $H/ && ln -
 sed -i "s#/repo/#$WT/#g" $H/Cargo.toml
 cd /verif
 VERIF_HARNESS_DIR=$H timeout 1800 python3 tools/check.py $ID --tier quick > $DST/check.log 2>&1; RC_CHECK=$?
-VERDICT=$(grep -E "^(VIOLATION|OK)" $DST/check.log | head -1)
+# further parts of the same check (tools/props/<id>_<part>.py), as in the manifest's quick_cmd
+idl=$(echo $ID | tr A-Z a-z)
+for pf in tools/props/${idl}_*.py; do
+  [ -f "$pf" ] || continue
+  [ $RC_CHECK -eq 0 ] || break
+  pt=$(basename $pf .py); pt=${pt#${idl}_}
+  VERIF_HARNESS_DIR=$H timeout 1800 python3 tools/check.py $ID --part $pt --tier quick >> $DST/check.log 2>&1; RC_CHECK=$?
+done
+VERDICT=$(grep -E "^VIOLATION" $DST/check.log | head -1); [ -z "$VERDICT" ] && VERDICT=$(grep -E "^OK" $DST/check.log | tail -1)
 REPLAY=$(echo "$VERDICT" | sed -n 's/.*replay=\([^ ]*\).*/\1/p')
 [ -n "$REPLAY" ] && cp /verif/$REPLAY $DST/replay.json 2>/dev/null
 python3 - <<EOF
